@@ -60,7 +60,10 @@ def run_scenario(res: Result, seed: int) -> None:
     acts = {k: rng.random() < p for k, p in (("inflight_reg", 0.4), ("queries", 0.6), ("tc", 0.3), ("browser_direct", 0.5), ("browser_api", 0.5),
                                                 ("lookup", 0.5), ("old_browser", 0.3), ("peer_traffic", 0.7))}
     off = float(rng.choice([0, 25, 50, 75, 100, 125, 150, 175, 200, 225, 350, 400, 450, 500, 575, 800, 1000, 1100, 1200])) if rng.random() < 0.7 else float(rng.randrange(0, 1400))
-    desc = {"layout": layout, "n_reg": n_reg, "acts": acts, "off": off}
+    # two close calls overlapping in time (gathered, or the second started while the first is sending goodbyes): each has
+    # "returned" on its own, so the instance must be quiet from the earlier of the two returns on
+    overlap = float(rng.choice([0, 1, 100, 130, 260])) if rng.random() < 0.2 else None
+    desc = {"layout": layout, "n_reg": n_reg, "acts": acts, "off": off, "overlap": overlap}
     log: List[Tuple[float, str, Any]] = []
 
     def viol(monitor: str, kind: str, detail: str, **sig: Any) -> None:
@@ -189,12 +192,23 @@ def run_scenario(res: Result, seed: int) -> None:
             out["reg_keys"] = sorted(zc.registry._services)
             out["C0"] = sim.now_ms()
             out["mark"] = len(sim.net.trace)
-            await azc.async_close()
-            out["C"] = sim.now_ms()
-            out["mark_after"] = len(sim.net.trace)
-            out["dead_after"] = len(sim.net.dead_sends)
-            out["log_after"] = len(log)
-            out["esc_after"] = len(sim.net.escapes)
+            if overlap is None:
+                await azc.async_close()
+                out["C"] = sim.now_ms()
+                out["mark_after"] = len(sim.net.trace)
+                out["dead_after"] = len(sim.net.dead_sends)
+                out["log_after"] = len(log)
+                out["esc_after"] = len(sim.net.escapes)
+            else:
+                rets: List[Tuple] = []
+
+                async def closer(delay: float) -> None:
+                    await sim.sleep_ms(delay)
+                    await azc.async_close()
+                    rets.append((sim.now_ms(), len(sim.net.trace), len(sim.net.dead_sends), len(log), len(sim.net.escapes)))
+                await asyncio.gather(closer(0.0), closer(overlap))
+                out["C"], out["mark_after"], out["dead_after"], out["log_after"], out["esc_after"] = min(rets)
+                out["returns"] = [r[0] for r in rets]
             # ---- two more virtual hours with traffic
             for k in range(6):
                 await sim.sleep_ms(rng.choice([10, 300, 1200, 11000, 600000, 1800000]))
@@ -295,9 +309,17 @@ def analyse(res: Result, sim: simnet.Sim, desc: Dict[str, Any], out: Dict[str, A
                         viol("c17.goodbyes", "goodbye_incomplete", "goodbye at close lacks %r" % (sorted(need - zero, key=repr)[:2],))
                     if e["closing"]:
                         viol("c17.goodbyes", "goodbye_after_transport_close", "goodbye handed to a transport that was already closing")
-            if n != 3:
+            if n != 3 and desc.get("overlap") is not None:
+                # (the second of two overlapping calls closes the sockets under the first call's goodbyes: listed in DESIGN as
+                #  outside what the statement promises; an overlapping pair of calls is judged for quiet after the earlier return,
+                #  exceptions and lookups only)
+                res.obs("overlapping_close_goodbyes_sent_%d" % n)
+            elif n != 3:
                 viol("c17.goodbyes", "goodbye_count_at_close", "%d goodbyes for %s before async_close returned (expected 3)" % (n, s.name), count=n)
-    withdrawn_monitor(res, sim.net.trace[:out["mark_after"]], C0, C, viol)
+    if desc.get("overlap") is None:
+        withdrawn_monitor(res, sim.net.trace[:out["mark_after"]], C0, C, viol)
+    else:
+        res.obs("overlapping_close_withdrawal_not_judged")
     # ---- quiet afterwards
     res.mon("c17.quiet")
     after = [e for e in sim.net.trace[out["mark_after"]:] if e["host"] == "H"]
